@@ -134,8 +134,25 @@ pub fn run_scenario(c: &mut Case, sc: &Scenario, opts: RunOpts) -> bool {
         }
     }
     let parser = run.parser.expect("parser");
-    let sp = match crate::ev::guarded(|| parser.into_stream_parser()) {
-        Ok(Ok(p)) => p,
+    // two ways to get a stream parser: the direct conversion (shared buffer) or a fresh
+    // stream::Parser::new for the extracted Request, re-fed with the returned leftover
+    let via_new = c.rng.chance(1, 4);
+    let mut start_fed = run.fed;
+    let built = crate::ev::guarded(|| {
+        if via_new {
+            parser.into_request().map(|(req, leftover)| (fastcgi_server::parser::stream::Parser::new(&cfg, req), leftover.len()))
+        } else {
+            parser.into_stream_parser().map(|p| (p, 0))
+        }
+    });
+    let sp = match built {
+        Ok(Ok((p, leftover))) => {
+            start_fed -= leftover;
+            if via_new {
+                c.l.count("stream_parsers_built_with_new");
+            }
+            p
+        }
         Ok(Err(e)) => {
             c.violation("preamble-error", Json::obj().with("scenario", sc.desc.clone()).with("error", sd::err_kind(&e)));
             return false;
@@ -146,7 +163,7 @@ pub fn run_scenario(c: &mut Case, sc: &Scenario, opts: RunOpts) -> bool {
         }
     };
     let order = wire::role_input_streams(sc.role);
-    let mut d = SDriver::new(sp, &sc.bytes, run.fed, sc.bytes.len());
+    let mut d = SDriver::new(sp, &sc.bytes, start_fed, sc.bytes.len());
     if d.active() != order.first().copied() {
         let a = d.active();
         report(c, sc, &d, "initial-active-stream", format!("fresh stream parser has active stream {a:?}, role order is {order:?}"));
